@@ -260,7 +260,17 @@ func init() {
 	})
 }
 
+// runC01: most cases run alone; some run as 2-3 concurrent sessions of the
+// same case shape in one process (package-level state in the code under test).
 func runC01(cs *vrt.Case) {
+	if cs.Idx > 0 && cs.Idx%4 == 2 {
+		cs.Twins(2+(cs.Idx/7)%2, func(sub *vrt.Case, _ *vrt.Rng) { runC01One(sub) })
+		return
+	}
+	runC01One(cs)
+}
+
+func runC01One(cs *vrt.Case) {
 	r := cs.Rng
 	nrand := 400
 	if cs.Thorough() {
